@@ -376,12 +376,17 @@ PROPERTIES["C11"] = {
            "thorough": "same bound (5 operations would be 10^6 histories)"},
           params={"quick": {"ops": 4}, "thorough": {"ops": 4}}, budget={"quick": 500, "thorough": 1500},
           required_covers=["c11.routermap.routable"]),
+        M("c11_router_identity_gate", "d_c11", "router_identity_gate",
+          {"quick": "RouterSocket::recv_logical_finalized in non-blocking mode over the real AddressedIngressEngine / ReadyPipeQueue (two connections): all histories of 4 operations from {message arrives on connection 0/1, identity of connection 0/1 finalized, recv}",
+           "thorough": "histories of 5 operations"},
+          params={"quick": {"ops": 4}, "thorough": {"ops": 5}}, budget={"quick": 400, "thorough": 2400},
+          required_covers=["c11.gate.released-after-finalize", "c11.gate.wouldblock-while-pending"]),
     ],
     "assumptions": MIRSYM_TRUST + ["RouterMap histories are enumerated by forking with concrete identities (bounded exhaustive execution of the MIR)"],
     "manifest": {
         "engine": "mirsym",
         "technique": "symbolic execution of the envelope framing functions and of RouterMap (MIR, z3) over all bounded payload shapes / histories",
-        "text": "Delimiter insertion and stripping round-trips every payload shape unchanged in both directions (including payloads starting with an empty frame), with a well-formed MORE chain on the inserted frames; a RouterMap lookup never yields a connection that did not announce that identity and a pipe is never labelled with another peer's identity, for every bounded history including collisions and re-identification.",
+        "text": "Delimiter insertion and stripping round-trips every payload shape unchanged in both directions (including payloads starting with an empty frame), with a well-formed MORE chain on the inserted frames; a RouterMap lookup never yields a connection that did not announce that identity and a pipe is never labelled with another peer's identity, for every bounded history including collisions and re-identification. Identity gate: ROUTER's receive path hands a message to the application only when the identity of its connection is final (never earlier, so never under a placeholder for a peer that announces one), in per-connection arrival order, and reports would-block only when no message of a finalized connection is waiting.",
         "design_ref": "DESIGN.md §5 C11",
         "note": "Safety only: that an announced identity stays routable after a colliding peer leaves is NOT claimed (observed as reachable, see DESIGN.md). Identity gate timing, ROUTER_MANDATORY error kinds and REQ/REP envelope handling on live sockets are outside.",
     },
